@@ -406,7 +406,14 @@ impl Dispatch {
             .map(smutil::parse_req)
             .collect::<anyhow::Result<Vec<_>>>()?;
         let prefix = (case["prefix"].as_u64().unwrap_or(0) as usize).min(reqs.len());
-        let occur = Occur::collect(&reqs);
+        let again = case["again"].as_bool().unwrap_or(false);
+        let suffix: Vec<ClientRequest> = match case["suffix"].as_array() {
+            Some(a) => a.iter().map(smutil::parse_req).collect::<anyhow::Result<Vec<_>>>()?,
+            None => vec![],
+        };
+        let mut all_reqs = reqs.clone();
+        all_reqs.extend(suffix.iter().cloned());
+        let occur = Occur::collect(&all_reqs);
         let tmp_base = self.tmp_base.clone();
         let sys = actix_rt::System::new();
         let out = sys.block_on(async move {
@@ -420,6 +427,7 @@ impl Dispatch {
             let (b_before, _) = smutil::dump(&b, &occur).await?;
             let recs = smutil::snapshot_part_raw(&a, Part::All).await?;
             let n_records = recs.len();
+            let recs_again = recs.clone();
             let mut load_errors = vec![];
             for (tree, k, v) in recs {
                 let rec = SnapshotRecordDto {
@@ -436,8 +444,38 @@ impl Dispatch {
             b.settle().await?;
             b.settle().await?;
             let (b_installed, _) = smutil::dump(&b, &occur).await?;
+            // round 7: the same snapshot delivered a second time (retried InstallSnapshot) ...
+            let mut b_again = Value::Null;
+            if again {
+                for (tree, k, v) in recs_again {
+                    let rec = SnapshotRecordDto {
+                        tree: std::sync::Arc::new(tree.clone()),
+                        key: k,
+                        value: v,
+                        op_type: 0,
+                    };
+                    if let Err(e) = b.handler.load_snapshot(rec).await {
+                        load_errors.push(json!([tree, e.to_string()]));
+                    }
+                }
+                b.handler.load_complete().ok();
+                b.settle().await?;
+                b.settle().await?;
+                b_again = smutil::dump(&b, &occur).await?.0;
+            }
+            // ... and the committed log suffix after the snapshot applied on both nodes
+            let (mut a_after, mut b_after) = (Value::Null, Value::Null);
+            if !suffix.is_empty() {
+                let (_r, _e) = run_leader(&a, &suffix, true).await;
+                let (_r, _e) = run_leader(&b, &suffix, true).await;
+                a.settle().await?;
+                b.settle().await?;
+                a_after = smutil::dump(&a, &occur).await?.0;
+                b_after = smutil::dump(&b, &occur).await?.0;
+            }
             anyhow::Ok((
                 json!({"r": "ok", "a_final": a_final, "b_before": b_before, "b_installed": b_installed,
+                       "b_again": b_again, "a_after": a_after, "b_after": b_after,
                        "snapshot_records": n_records, "load_errors": load_errors, "leader_errors": ea}),
                 (a.dir, b.dir),
             ))
